@@ -10,11 +10,24 @@
    [Forall3]: the relation holds segment by segment.                                         *)
 From Coq Require Import String ZArith Reals List.
 From FF Require Import Base.Ops Inst.RInst Base.RAlg Spec.Kron2 Spec.DigitPerm Model.Numeric Model.Remap Model.Extend
-     Model.Tie.C05 Proofs.RemapIdx Proofs.RemapCov Proofs.Remap Proofs.ExtendKron Proofs.ExtendKron2 Proofs.Extend Proofs.Extend2 Proofs.ExtendPlace Proofs.PauliProd Proofs.PauliEx Proofs.ExtendEx.
+     Model.Tie.C05 Proofs.RemapIdx Proofs.RemapCov Proofs.Remap Proofs.ExtendKron Proofs.ExtendKron2 Proofs.Extend Proofs.Extend2 Proofs.Extend3 Proofs.ExtendPlace Proofs.PauliProd Proofs.PauliEx Proofs.ExtendEx.
 (* the comparison functions of the correspondence check are built with this file's dependency cone *)
 From FF Require Corr.RemapObs Corr.ExtendObs.
+From FF Require Model.Tensor Spec.Kron Proofs.TensorTranspose Proofs.KronBridge Properties.C16.
 Import ListNotations.
 Local Open Scope nat_scope.
+
+(* --- link to C16: the hypotheses [krel] (and [mrel], [basis_is_pauli] in C06) say that the outputs of util.tensor /
+       tensor_insert / tensor_merge / tensor_transpose are the Kronecker products of the rearranged factor lists.  For
+       integer tensors this is proved in Properties/C16.v:
+         C16_insert_equals_tensor_of_rearranged, C16_merge_equals_tensor_of_rearranged,
+         C16_transpose_equals_tensor_of_rearranged  (and C16_merge_spec, C16_insert_int_spec);
+       the Kronecker product of that specification is the one used here, and its list permutation is [sel]: --- *)
+Theorem C05_c16_kron_is_fkron : forall (A B : Tensor.arr) d1 d2, Tensor.shp A = [d1; d1] -> Tensor.shp B = [d2; d2] ->
+  feq (d1 * d2) (KronBridge.zF (Kron.kron2 A B)) (fkron d2 (KronBridge.zF A) (KronBridge.zF B)).
+Proof. exact KronBridge.kron2_is_fkron. Qed.
+Theorem C05_c16_permute_is_sel : forall ord L, TensorTranspose.permute_list ord L = sel (Tensor.mkArr [] []) L ord.
+Proof. exact KronBridge.permute_list_is_sel. Qed.
 
 (* --- Kronecker algebra --- *)
 Theorem C05_sum_split : forall d1 d2 (f : nat -> Cx),
@@ -166,6 +179,46 @@ Theorem C05_two_block_filter_function : forall (d1 d2 K1 K2 na1 na2 : nat) (basi
   a3get RO (Numeric.filter_function RO (na1 + na2) (K1 * K2) (length omega) (cm12 d1 d2 basis ns thr evs Vs omega nc dts)) a b o.
 Proof. exact two_block_filter_function. Qed.
 Print Assumptions C05_two_block_filter_function.
+
+(* --- more than two blocks: seen from block j a register of any number of blocks is (before) (x) (block j) (x) (after);
+       for noise operators 1 (x) B (x) 1 and a product basis C_k (x) D_l (x) E_m the from-scratch control matrix is
+       tr(C_k) B2_{a,l} tr(E_m)  [= sqrt(d1 d3) B2_{a,l} on (0,l,0), zero elsewhere, by C05_pauli_onb / basis2_trace]:
+       the rows extend assembles for block j, whatever the number and sizes of the other blocks --- *)
+Theorem C05_cm_embed_middle : forall (d1 d2 d3 K1 K2 K3 : nat) (basis1 basis2 basis3 basis12 basis : list Mat),
+  length basis2 = K2 -> length basis12 = K1 * K2 -> length basis = K1 * K2 * K3 ->
+  (forall k l, k < K1 -> l < K2 -> krel d1 d2 (nthm basis1 k) (nthm basis2 l) (nthm basis12 (k * K2 + l))) ->
+  (forall kl m, kl < K1 * K2 -> m < K3 -> krel (d1 * d2) d3 (nthm basis12 kl) (nthm basis3 m) (nthm basis (kl * K3 + m))) ->
+  forall (na2 na12 na : nat) (ns2 ns12 ns : list Mat) (rho12 rho : nat -> nat),
+  length ns2 = na2 -> length ns12 = na12 -> length ns = na ->
+  (forall a, a < na2 -> rho12 a < na12) -> (forall a, a < na12 -> rho a < na) ->
+  (forall a, a < na2 -> krel d1 d2 (mid RO d1) (nthm ns2 a) (nthm ns12 (rho12 a))) ->
+  (forall a, a < na12 -> krel (d1 * d2) d3 (nthm ns12 a) (mid RO d3) (nthm ns (rho a))) ->
+  forall thr evs1 evs2 evs3 evs12 evs Vs1 Vs2 Vs3 Vs12 Vs omega nc2 nc12 nc dts,
+  Forall3 (evrel d1 d2) evs1 evs2 evs12 -> Forall3 (krel d1 d2) Vs1 Vs2 Vs12 ->
+  Forall3 (evrel (d1 * d2) d3) evs12 evs3 evs -> Forall3 (krel (d1 * d2) d3) Vs12 Vs3 Vs ->
+  Forall (fun V => funitary d1 (toF V)) Vs1 -> Forall (fun V => funitary d3 (toF V)) Vs3 ->
+  length nc2 = na2 -> length nc12 = na12 -> length nc = na ->
+  (forall a, a < na2 -> nth (rho12 a) nc12 [] = nth a nc2 []) ->
+  (forall a, a < na12 -> nth (rho a) nc [] = nth a nc12 []) ->
+  let B2 := control_matrix_from_scratch RO d2 thr evs2 Vs2 (Numeric.propagators RO d2 evs2 Vs2 dts) omega basis2 ns2 nc2 dts (times RO dts) in
+  let Bm := control_matrix_from_scratch RO (d1 * d2 * d3) thr evs Vs (Numeric.propagators RO (d1 * d2 * d3) evs Vs dts) omega basis ns nc dts (times RO dts) in
+  forall a k l m o, a < na2 -> k < K1 -> l < K2 -> m < K3 -> o < length omega ->
+    a3get RO Bm (rho (rho12 a)) ((k * K2 + l) * K3 + m) o =
+    cmul' (cmul' (mtrace RO d1 (nthm basis1 k)) (a3get RO B2 a l o)) (mtrace RO d3 (nthm basis3 m)).
+Proof. exact cm_embed_middle. Qed.
+Print Assumptions C05_cm_embed_middle.
+
+(* --- rows of the from-scratch control matrix depend only on their own noise operator and coefficients: the rows extend
+       computes separately for the additional noise Hamiltonian (calculate_control_matrix_from_scratch on the assembled
+       spectral data, restricted to those operators) are the corresponding rows of the complete control matrix --- *)
+Theorem C05_additional_rows : forall (d K : nat) (basis : list Mat), length basis = K ->
+  forall thr evs Vs Qs omega ns ns' nc nc' dts ts a a',
+  a < length ns -> a' < length ns' -> length nc = length ns -> length nc' = length ns' ->
+  nthm ns a = nthm ns' a' -> nth a nc [] = nth a' nc' [] ->
+  forall k o, k < K -> o < length omega ->
+  a3get RO (control_matrix_from_scratch RO d thr evs Vs Qs omega basis ns nc dts ts) a k o =
+  a3get RO (control_matrix_from_scratch RO d thr evs Vs Qs omega basis ns' nc' dts ts) a' k o.
+Proof. exact cm_row_local. Qed.
 
 (* --- filter function: by construction sum_k conj(B_ak) B_bk of the assembled control matrix; the pinned
        (pre-fix) block-diagonal filling is refuted by a 2-qubit witness --- *)
